@@ -96,6 +96,19 @@ class Emitter:
             return self.consts[n]
         return None
 
+    def const_value(self, e):
+        while e[0] == 'paren':
+            e = e[1]
+        if e[0] == 'num':
+            return e[1]
+        if e[0] == 'path':
+            c = self.lookup_const(e[1])
+            return c[1] if c is not None else None
+        if e[0] == 'un' and e[1] == '-':
+            v = self.const_value(e[2])
+            return -v if v is not None else None
+        return None
+
     def is_literal(self, e):
         while e[0] == 'paren':
             e = e[1]
@@ -158,7 +171,7 @@ class Emitter:
                 t, ty = self.expr(e[2], expect)
                 if ty not in SIGNED:
                     raise Unsupported("negation of unsigned")
-                return self.hoist('cneg %s %d %s' % (ty, e[3], t)), ty
+                return self.hoist('cneg %s 0 %s' % (ty, t)), ty
             if op == '!':
                 t, ty = self.expr(e[2], expect)
                 if ty == 'BOOL':
@@ -241,7 +254,7 @@ class Emitter:
             a, ta = self.expr(l, expect)
             b, _ = self.expr(r, 'U32')
             f = 'cshl' if op == '<<' else 'cshr'
-            return self.hoist('%s %s %d %s %s' % (f, ta, ln, a, b)), ta
+            return self.hoist('%s %s 0 %s %s' % (f, ta, a, b)), ta
         # operand types: a literal takes the other side's type
         if self.is_literal(l) and not self.is_literal(r):
             b, tb = self.expr(r, expect)
@@ -271,8 +284,15 @@ class Emitter:
                 return '(%s %s %s)' % (f, a, b), 'BOOL'
             f = {'&': 'Z.land', '|': 'Z.lor', '^': 'Z.lxor'}[op]
             return '(%s %s %s)' % (f, a, b), ta
+        if op in ('/', '%'):
+            # division by a non-zero constant (other than -1) cannot panic: keep it pure
+            cv = self.const_value(r)
+            if cv is not None and cv != 0 and cv != -1:
+                if ta in SIGNED:
+                    return '(%s %s %s)' % ('Z.quot' if op == '/' else 'Z.rem', a, b), ta
+                return '(%s %s %s)' % (a, '/' if op == '/' else 'mod', b), ta
         f = {'+': 'cadd', '-': 'csub', '*': 'cmul', '/': 'cdiv', '%': 'crem'}[op]
-        return self.hoist('%s %s %d %s %s' % (f, ta, ln, a, b)), ta
+        return self.hoist('%s %s 0 %s %s' % (f, ta, a, b)), ta
 
     def mcall(self, e, expect):
         recv, name, args, ln = e[1], e[2], e[3], e[4]
